@@ -18,8 +18,34 @@ fn run_l<L: Language + 'static>(c: &Mixed, obs: &mut Obs) -> Result<(), String> 
     let mut cmp = 0u64;
     let mut old_pair_rechecked = false;
     let mut dead_used = false;
+    // one case in three leaves the old handles alone until the end (every query compresses union-find paths; a handle whose
+    // class was merged away several times without anybody looking must still canonicalise to a live class, once and for all)
+    let lazy = {
+        let mut h: u64 = 0xcbf29ce484222325;
+        for b in c.render().as_bytes() {
+            h ^= *b as u64;
+            h = h.wrapping_mul(0x100000001b3);
+        }
+        h % 3 == 1
+    };
+    let n_ops = c.ops.len();
+    let mut lazy_end = false;
     let st = drive::<L, ()>(c, &mut eg, &mut |eg, st, _op| {
         let step = st.step;
+        if lazy {
+            if step + 1 < n_ops {
+                return Ok(());
+            }
+            lazy_end = true;
+            for (k, h) in st.handles.iter().enumerate() {
+                let f = eg.find_applied_id(h);
+                let ff = eg.find_applied_id(&f);
+                cmp += 1;
+                if f != ff || !eg.is_alive(f.id) {
+                    return Err(format!("old handle t{} = {:?} (not used since it was returned) canonicalises to {:?}, and that to {:?}; alive: {}", k, h, f, ff, eg.is_alive(f.id)));
+                }
+            }
+        }
         // 1. recorded equalities persist
         for (i, j, s0) in &equal_pairs {
             cmp += 1;
@@ -103,10 +129,13 @@ fn run_l<L: Language + 'static>(c: &Mixed, obs: &mut Obs) -> Result<(), String> 
     if old_pair_rechecked {
         obs.label("pair-rechecked-5-ops-later");
     }
+    if lazy_end {
+        obs.label("handles-untouched-until-the-end");
+    }
     if st.rewrites_changed > 0 {
         obs.label("rewrite-changed");
     }
-    obs.nontrivial = dead_used && old_pair_rechecked;
+    obs.nontrivial = dead_used && (old_pair_rechecked || lazy_end);
     Ok(())
 }
 
